@@ -12,7 +12,7 @@ func init() {
 		ID: "C09",
 		Decides: "(R09.1) the current-handler slot is written only by start (initial handler) and exitAndEnter, the latter under the state lock; (R09.2) exitAndEnter is called only from switchState after checkStateSwitchContext said proceed or redirect (not ignore, not error), with the checked or the redirected context; " +
 			"(R09.3) in checkStateSwitchContext every non-ignoring exit with a current handler in STOPPED requires next ∈ {BOOTING, BROKEN} (exactly these constants), every proceed exit except the BROKEN shortcut requires from == current state and a registered next state, and the unchanged context leaves the function only if consensus is allowed, or the current state is HANDOVER, or next ∉ {CONSENSUS, JOINING}; in SYNCING the disallowed request is ignored, otherwise replaced by a syncing context; " +
-			"(R09.4) the reported state is next() of the very context handed to exitAndEnter and is reported only after exitAndEnter succeeded; (R09.5) who may call switchState and who may send on the state channel.; (R09.7) no method of States calls, while holding stateLock, another method that acquires stateLock (RWMutex is not re-entrant: the machine would block before reaching Syncing); (R09.8) switchState reports an ignored request differently from a completed switch (its caller applies after-switch effects) and (R09.9) a request is validated against the state it is applied to (validation and switch in one critical section of stateLock, or re-validation under the switch lock) — both violated today, known findings",
+			"(R09.4) the reported state is next() of the very context handed to exitAndEnter and is reported only after exitAndEnter succeeded; (R09.5) who may call switchState and who may send on the state channel.; (R09.7) no method of States calls, while holding stateLock, another method that acquires stateLock (RWMutex is not re-entrant: the machine would block before reaching Syncing); (R09.8) switchState reports an ignored request differently from a completed switch (its caller applies after-switch effects) and (R09.9) a request is validated against the state it is applied to (validation and switch in one critical section of stateLock, or re-validation under the switch lock) — both violated today, known findings In exitAndEnter the exit of the current handler, the entry of the next and the replacement of the slot lie in one exclusive section of stateLock (no unlock in between).",
 		NotDecided: "races between SetAllowConsensus and an in-flight switch (the check is evaluated outside the state lock); handler-internal enter/exit behaviour; the handover broker protocol.",
 		Run:        runC09,
 	})
@@ -77,6 +77,25 @@ func runC09(c *Ctx) {
 	if fn := c.Need("isaac/states.(*States).exitAndEnter"); fn != nil {
 		sts := c.StoresD(fn, "&st.cs")
 		c.Held(fn, nil, "current handler replaced under the state lock", sts, 1, "&st.stateLock", LW)
+		// the whole switch is one exclusive section: whoever reads the slot under the lock
+		// (SetAllowConsensus notifying the current handler) sees either the handler before its exit or the
+		// handler after its entry — not an exited handler that is still in the slot
+		c.Held(fn, nil, "current handler exits with the state lock held exclusively", c.CallsD(fn, "current.exit(sctx)"), 1, "&st.stateLock", LW)
+		c.Held(fn, nil, "next handler enters with the state lock held exclusively", c.CallsD(fn, "*.enter(current.state(), sctx)"), 1, "&st.stateLock", LW)
+		for _, ex := range c.CallsD(fn, "current.exit(sctx)") {
+			cut := NewCut()
+			for _, x := range allInstrs(fn) {
+				if cc := callCommon(x); cc != nil && strings.HasSuffix(CalleeFullName(cc), ").Unlock") && len(cc.Args) > 0 && c.D(cc.Args[0]) == "&st.stateLock" {
+					if _, isDefer := x.(*ssa.Defer); !isDefer {
+						cut.Barriers[x] = true
+					}
+				}
+			}
+			res := reach(fn, ex, cut)
+			for _, stx := range sts {
+				c.Report(fn, "the lock is not released between the exit of the current handler and the replacement of the slot", c.InstrPos(stx), res.reached[stx], "an Unlock of stateLock lies on every path from the exit to this store")
+			}
+		}
 		c.StoredIs(fn, "current handler becomes the handler created for next()", sts, 1, "call(st.newHandlers[sctx.next()].new)()#0", "st.newHandlers[sctx.next()].new()#0")
 		c.MP(fn, "handler replaced only after the new handler was created", sts, 1, GOk("call(st.newHandlers[sctx.next()].new)()"), GOk("st.newHandlers[sctx.next()].new()"))
 		succ := c.SuccessReturns(fn)
